@@ -837,6 +837,13 @@ class ManifestRecursiveLoader:
                         else:
                             new_mpath = mpath[:-len(compr)-1]
 
+                        # the new name may be taken by a file that
+                        # is not a Manifest of ours, do not clobber it
+                        if (new_mpath not in self.loaded_manifests
+                                and os.path.lexists(os.path.join(
+                                    self.root_directory, new_mpath))):
+                            continue
+
                         # do the rename!
                         self.loaded_manifests[new_mpath] = m
                         # (rename the top-level Manifest first, so that
